@@ -8,6 +8,8 @@
 package main
 
 import (
+	"time"
+	"runtime/pprof"
 	"encoding/json"
 	"fmt"
 	"io"
@@ -86,6 +88,14 @@ func main() {
 	// VERIF_NO_EVIDENCE: runs against a deliberately altered tree (tools/trymutant.sh and friends) leave the committed evidence alone
 	r.NoEvidence = replay || os.Getenv("VERIF_NO_EVIDENCE") != ""
 	currentRun = r
+	if hp := os.Getenv("VERIF_HEAPPROF"); hp != "" {
+		go func() {
+			time.Sleep(150 * time.Second)
+			f, _ := os.Create(hp)
+			pprof.WriteHeapProfile(f)
+			f.Close()
+		}()
+	}
 	os.Exit(fn(r))
 }
 
